@@ -738,3 +738,66 @@ func ruleStreamPayloadProvenance(c *Ctx, rule string) {
 		c.check(rule, fk+":writes-the-envelope-built", okW, "the envelope handed to the transport is the one carrying that body", p.ipos(env.At()))
 	}
 }
+
+// ruleCodecErrorsHonoured: a message that could not be decoded (or encoded) is never passed off as delivered: from
+// every codec Unmarshal / Marshal call, no successful return (a literal nil error) and no transport write is
+// reachable without passing an edge on which the codec's error is known to be nil.
+func ruleCodecErrorsHonoured(c *Ctx, rule string) {
+	p := c.p
+	n := 0
+	for _, f := range p.Funcs {
+		allInstrs(f, func(i ssa.Instruction) {
+			call, ok := i.(*ssa.Call)
+			if !ok || !call.Call.IsInvoke() {
+				return
+			}
+			m := call.Call.Method
+			if m.Pkg() == nil || !strings.HasSuffix(m.Pkg().Path(), "grpc/encoding") || (m.Name() != "Unmarshal" && m.Name() != "Marshal") {
+				return
+			}
+			n++
+			var errV ssa.Value = call
+			if m.Name() == "Marshal" {
+				ex := extractOf(call, 1)
+				if ex == nil {
+					c.check(rule, p.cname(f)+":codec."+m.Name()+":error-used", false, "the codec's error result is discarded", p.ipos(i))
+					return
+				}
+				errV = ex
+			}
+			errPath := p.lpath(errV)
+			isOnward := func(j ssa.Instruction) bool {
+				switch x := j.(type) {
+				case *ssa.Return:
+					vs := retVals(x)
+					return len(vs) > 0 && isNilConst(vs[len(vs)-1]) && types.Identical(vs[len(vs)-1].Type(), types.Universe.Lookup("error").Type())
+				case *ssa.Call:
+					for _, w := range p.transportOps(f, "Write", false) {
+						if w == x {
+							return true
+						}
+					}
+				}
+				return false
+			}
+			// the error may be kept in a variable that closures share (a cell): the test then reads the cell
+			prune := p.edgeImplies(f, atom("isnil", errPath))
+			if refs := errV.Referrers(); refs != nil {
+				for _, r := range *refs {
+					if st, ok := r.(*ssa.Store); ok && st.Val == errV {
+						viaCell := p.edgeImplies(f, atom("isnil", p.locPath(st.Addr)))
+						direct := prune
+						prune = func(ifi *ssa.If, succ int) bool { return direct(ifi, succ) || viaCell(ifi, succ) }
+					}
+				}
+			}
+			hit := p.pathAvoiding(f, call, isOnward, func(ssa.Instruction) bool { return false }, prune)
+			where := ""
+			if hit != nil {
+				where = p.ipos(hit)
+			}
+			c.check(rule, p.cname(f)+":codec."+m.Name()+":failure-not-success", hit == nil, "no successful return and no transport write is reachable from the codec call without passing `err == nil` (reached: "+where+")", p.ipos(i))
+		})
+	}
+	c.floor(rule, "codec Marshal / Unmarshal calls", n, 6)
+}
